@@ -149,7 +149,7 @@ func (e *Env) buildConcPlan(id int) *c12proc {
 		}
 	}
 	if useShared {
-		sharedData = r.Bytes(sharedNeed)
+		sharedData = r.Bytes(3*sharedNeed + 64) // more than needed: a consumer may request more than it uses
 		p.shared = sharedData
 		p.conc.Shared = &plan.Src{Data: hx(sharedData)}
 	}
